@@ -120,12 +120,13 @@ func c18Check(c *rt.Ctx, sub int, b []byte) {
 	}
 	ref := oracle.Recognise(b, 0)
 	stdValid := stdjson.Valid(b)
+	overDeep := false // grammatical, but beyond the nesting limit: no lenience of a scanner explains an acceptance
 	if stdValid != ref {
 		if ref && nestingDepth(b) > 10000 {
 			// encoding/json's nesting limit (10000 levels), which go-json shares: such a text is
 			// rejected by all four functions there, and must be here
 			c.Obs("beyond_depth_limit_judged_as_rejected", 1)
-			ref = false
+			ref, overDeep = false, true
 		} else {
 			c.Inconclusive("reference disagreement on " + rt.Q(b))
 			return
@@ -141,7 +142,11 @@ func c18Check(c *rt.Ctx, sub int, b []byte) {
 	if gv != stdValid {
 		if gv {
 			e := &c05Entry{name: "Valid", stream: true}
-			c.Violate(rt.Violation{Monitor: "util-valid", Entry: "Valid", Kind: "ok-vs-err", Ctx: c05Explain(b, e), Detail: "Valid(" + rt.Q(b) + ") = true, encoding/json.Valid = false", Input: string(b), Sub: sub})
+			vctx := c05Explain(b, e)
+			if overDeep {
+				vctx = "beyond-depth-limit"
+			}
+			c.Violate(rt.Violation{Monitor: "util-valid", Entry: "Valid", Kind: "ok-vs-err", Ctx: vctx, Detail: "Valid(" + rt.Q(b) + ") = true, encoding/json.Valid = false", Input: string(b), Sub: sub})
 		} else {
 			ctx := "valid-text-rejected:" + docClass(b)
 			if hasFloatRangeNumber(b) {
@@ -205,8 +210,8 @@ func c18Check(c *rt.Ctx, sub int, b []byte) {
 				// invalid (or over-deep) text for the reference
 				if gerr == nil {
 					ctx := utilExplain(b)
-					if ref {
-						ctx = "reference-rejects-valid-text:depth"
+					if ref || overDeep {
+						ctx = "beyond-depth-limit"
 					}
 					c.Violate(rt.Violation{Monitor: "util-reject", Entry: entry, Kind: "ok-vs-err", Ctx: ctx,
 						Detail: o.name + " accepts " + rt.Q(b) + " (encoding/json: " + serr.Error() + ")", Input: string(b), Sub: sub})
@@ -258,7 +263,11 @@ func c18Check(c *rt.Ctx, sub int, b []byte) {
 			c.Eval(1)
 			if gb.String() != pre {
 				e := &c05Entry{name: "Valid", stream: true}
-				c.Violate(rt.Violation{Monitor: "util-htmlesc", Entry: "HTMLEscape", Kind: "wrote-on-invalid-text", Ctx: c05Explain(b, e),
+				hctx := c05Explain(b, e)
+				if overDeep {
+					hctx = "beyond-depth-limit"
+				}
+				c.Violate(rt.Violation{Monitor: "util-htmlesc", Entry: "HTMLEscape", Kind: "wrote-on-invalid-text", Ctx: hctx,
 					Detail: "HTMLEscape(buf holding " + rt.Q([]byte(pre)) + ", " + rt.Q(b) + ") left " + rt.Q(gb.Bytes()), Input: string(b), Sub: sub})
 			}
 		}
